@@ -361,6 +361,11 @@ def c13_cleanup(v, ctx, tftpd, T=1):
             for cause in ("error", "silence"):
                 for j in (0, 1, 2, 4):
                     plans.append((srv, sb, keep, w, cause, j))
+    # a plain RFC 1350 upload (no option at all, so the default 5 s timeout applies) whose client falls silent, both modes
+    for single in (False, True):
+        sb = ctx.sandbox("c13clean")
+        srv = N.Server(tftpd, sb["srv"], single=single, logdir=sb["logs"]).start()
+        plans.append((srv, sb, False, 1, "silence-default-timeout", 1))
 
     def one(p):
         srv, sb, keep, w, cause, j = p
@@ -368,9 +373,12 @@ def c13_cleanup(v, ctx, tftpd, T=1):
         content = N.keyed_content(name, 512 * 6 + 100)
         s = N._sock(timeout=1.0)
         tr = N.Transfer()
-        s.sendto(N.enc_req(N.WRQ, name, options=[("timeout", T), ("windowsize", w)]), srv.addr)
+        plain = cause == "silence-default-timeout"
+        if plain:
+            name = f"fail_plain_{int(srv.single)}.bin"
+        s.sendto(N.enc_req(N.WRQ, name, options=[] if plain else [("timeout", T), ("windowsize", w)]), srv.addr)
         k, f, peer = N.recv(s, tr)
-        if k != "OACK":
+        if k != ("ACK" if plain else "OACK"):
             s.close()
             return p, name, content, None, f"first reply {k}"
         sent = 0
@@ -384,6 +392,8 @@ def c13_cleanup(v, ctx, tftpd, T=1):
         if cause == "error":
             s.sendto(N.enc_error(0, b"client aborts"), peer)
             time.sleep(0.3)
+        elif plain:
+            time.sleep(6 * 5 + 1.5)
         else:
             time.sleep(6 * T + 1.5)
         s.close()
